@@ -1,3 +1,534 @@
 import GnpyModel
-/- Property theorems for C04 (only the property theorems and their non-vacuity examples live here;
-   helper lemmas go to GnpyProofs/Lemmas). -/
+import GnpyProofs.Lemmas.Edfa
+/- Property theorems for C04 — an amplifier applies its set gain (reduced only as far as needed so that the
+   amplified incoming power never exceeds p_max), adds ASE = h·f·B·NF referred to its input, follows the
+   configured NF model, and does not amplify out-of-band channels.  Model: GnpyModel/Edfa.lean.  Statements over ℝ. -/
+namespace Gnpy.Edfa
+
+/-! ### saturation clamp -/
+
+/-- the effective gain never exceeds the set gain -/
+theorem effGain_le_set (s pm pin : ℝ) : effGain s pm pin ≤ s := by
+  rw [effGain, smin_eq_min]; exact min_le_left _ _
+
+/-- total input power (dBm) + effective gain never exceeds `p_max` -/
+theorem effGain_clamp (s pm pin : ℝ) : pin + effGain s pm pin ≤ pm := by
+  rw [effGain, smin_eq_min]; have := min_le_right s (pm - pin); linarith
+
+/-- the set gain is applied unchanged exactly when it does not saturate the amplifier -/
+theorem effGain_eq_set_iff (s pm pin : ℝ) : effGain s pm pin = s ↔ pin + s ≤ pm := by
+  rw [effGain, smin_eq_min]
+  constructor
+  · intro h; have := min_le_right s (pm - pin); rw [h] at this; linarith
+  · intro h; exact min_eq_left (by linarith)
+
+/-- "reduced only as far as needed": a saturating set gain is cut back to exactly `p_max - pin` -/
+theorem effGain_reduced_exact (s pm pin : ℝ) (h : pm < pin + s) : pin + effGain s pm pin = pm := by
+  rw [effGain, smin_eq_min, min_eq_right (by linarith)]; ring
+
+/-- the gain attribute after any sequence of calls is at most the set gain … -/
+theorem callSeq_le_set (s pm : ℝ) (pins : List ℝ) : callSeq s pm pins ≤ s := by
+  induction pins generalizing s with
+  | nil => exact le_refl _
+  | cons p ps ih => exact le_trans (ih (effGain s pm p)) (effGain_le_set s pm p)
+
+/-- … and respects `p_max` for every call made so far (in particular the last one) -/
+theorem callSeq_clamp_last (s pm : ℝ) (pins : List ℝ) : ∀ p ∈ pins, p + callSeq s pm pins ≤ pm := by
+  induction pins generalizing s with
+  | nil => intro p hp; simp at hp
+  | cons q qs ih =>
+    intro p hp
+    simp only [callSeq]
+    rcases List.mem_cons.1 hp with h | h
+    · subst h
+      have h1 := callSeq_le_set (effGain s pm p) pm qs
+      have h2 := effGain_clamp s pm p
+      linarith
+    · exact ih (effGain s pm q) p h
+
+/-- the first call of a freshly configured amplifier applies `min(set, p_max - pin)` -/
+theorem callSeq_first_call (s pm p : ℝ) : callSeq s pm [p] = effGain s pm p := rfl
+
+/-- **never exceeds p_max** (flat profile): the amplified incoming power `Σ pᵢ·G`, in dBm, is at most `p_max`,
+where `G` is the effective gain computed from the total input power. -/
+theorem total_out_le_pmax (ps : List ℝ) (s pm : ℝ) (hne : ps ≠ []) (hpos : ∀ p ∈ ps, 0 < p) :
+    watt2dbm (sumL (ps.map (fun p => p * db2lin (effGain s pm (watt2dbm (sumL ps)))))) ≤ pm := by
+  have hs := sumL_pos ps hne hpos
+  rw [sumL_map_mul_right, watt2dbm_mul_db2lin _ _ hs]
+  exact effGain_clamp s pm _
+
+/-- **raises total power by the effective gain** (flat profile) -/
+theorem flat_total_gain (ps : List ℝ) (g : ℝ) (hne : ps ≠ []) (hpos : ∀ p ∈ ps, 0 < p) :
+    watt2dbm (sumL (ps.map (fun p => p * db2lin g))) = watt2dbm (sumL ps) + g := by
+  rw [sumL_map_mul_right, watt2dbm_mul_db2lin _ _ (sumL_pos ps hne hpos)]
+
+/-! ### ASE -/
+
+/-- ASE added to a channel = `h · B · f · NF` (linear NF), at the amplifier input -/
+theorem ase_formula (b f nf : ℝ) : ase b f (some nf) = planck * b * f * db2lin nf := rfl
+
+/-- the OpenROADM booster (NF = −∞ dB) adds no noise -/
+theorem ase_noiseless_booster (b f : ℝ) : ase b f none = 0 := by
+  simp [ase, db2linE, zero]
+
+/-- the ASE is referred to the input: the channel leaves with `p·G + (h·B·f·NF)·G`, `G = db2lin(g − out_voa)` -/
+theorem ase_referred_to_input (p b f nf g v : ℝ) :
+    chanOut p (ase b f (some nf)) g v = p * db2lin (g - v) + planck * b * f * db2lin nf * db2lin (g - v) := by
+  simp only [chanOut, ase, db2linE]; ring
+
+/-! ### NF of min/max-NF (variable gain) amplifiers -/
+
+private theorem den_neg (gmin gmax : ℝ) (hg : gmin < gmax) :
+    1 / db2lin (gmax - 5) - 1 / db2lin (gmin - (gmax - gmin) - 5) < 0 := by
+  have h1 := db2lin_pos (gmax - 5)
+  have h2 := db2lin_pos (gmin - (gmax - gmin) - 5)
+  have hlt : db2lin (gmin - (gmax - gmin) - 5) < db2lin (gmax - 5) := (db2lin_lt_iff _ _).2 (by linarith)
+  have : 1 / db2lin (gmax - 5) < 1 / db2lin (gmin - (gmax - gmin) - 5) := one_div_lt_one_div_of_lt h2 hlt
+  linarith
+
+/-- linear second-coil noise factor of the unclipped solution -/
+private theorem estNf2_lin (gmin gmax a b : ℝ) (hg : gmin < gmax) (hab : a < b) :
+    db2lin (estNf2 gmin gmax a b) =
+      (db2lin a - db2lin b) / (1 / db2lin (gmax - 5) - 1 / db2lin (gmin - (gmax - gmin) - 5)) := by
+  simp only [estNf2, Nat.cast_ofNat, Nat.cast_one]
+  apply db2lin_lin2db
+  have hn : db2lin a - db2lin b < 0 := by have := (db2lin_lt_iff a b).2 hab; linarith
+  exact div_pos_of_neg_of_neg hn (den_neg gmin gmax hg)
+
+/-- the first-coil hypothesis of `nf_at_gmax`/`nf_at_gmin` in datasheet terms: it holds as soon as the NF spread
+is smaller than twice the gain range, `nf_max − nf_min < 2·(gain_max − gain_min)` -/
+theorem coil_pos_of_spread (gmin gmax a b : ℝ) (hg : gmin < gmax) (hab : a < b) (h : b - a < 2 * (gmax - gmin)) :
+    0 < db2lin a - db2lin (estNf2 gmin gmax a b) / db2lin (gmax - 5) := by
+  rw [estNf2_lin gmin gmax a b hg hab]
+  have hP := db2lin_pos (gmax - 5)
+  have hQ := db2lin_pos (gmin - (gmax - gmin) - 5)
+  have hA := db2lin_pos a
+  have hQP : db2lin (gmin - (gmax - gmin) - 5) < db2lin (gmax - 5) := (db2lin_lt_iff _ _).2 (by linarith)
+  -- B/A < P/Q
+  have hr : db2lin (b - a) < db2lin ((gmax - 5) - (gmin - (gmax - gmin) - 5)) := (db2lin_lt_iff _ _).2 (by linarith)
+  rw [db2lin_sub, db2lin_sub, div_lt_div_iff₀ hA hQ] at hr
+  generalize db2lin (gmax - 5) = P at *
+  generalize db2lin (gmin - (gmax - gmin) - 5) = Q at *
+  generalize db2lin a = A at *
+  generalize db2lin b = B at *
+  have key : A - (A - B) / (1 / P - 1 / Q) / P = (A * P - B * Q) / (P - Q) := by
+    have h1 : P - Q ≠ 0 := by linarith
+    have h2 : Q - P ≠ 0 := by linarith
+    field_simp
+    ring
+  rw [key]
+  exact div_pos (by linarith) (by linarith)
+
+/-- **NF = nf_min at maximum flat gain** for the unclipped `estimate_nf_model` solution
+(`hcoil`: the first-coil noise factor is positive, which `estimate_nf_model` needs to take its logarithm) -/
+theorem nf_at_gmax (gmin gmax a b : ℝ)
+    (hcoil : 0 < db2lin a - db2lin (estNf2 gmin gmax a b) / db2lin (gmax - 5)) :
+    nfVar (estNf1 gmin gmax a b) (estNf2 gmin gmax a b) 5 gmax gmax = a := by
+  have h1 : db2lin (estNf1 gmin gmax a b) = db2lin a - db2lin (estNf2 gmin gmax a b) / db2lin (gmax - 5) := by
+    simp only [estNf1, Nat.cast_ofNat]; exact db2lin_lin2db _ hcoil
+  simp only [nfVar, dgOf, smax_eq_max, zero, Nat.cast_zero, sub_self, max_self, sub_zero]
+  rw [h1]
+  have : db2lin a - db2lin (estNf2 gmin gmax a b) / db2lin (gmax - 5) +
+      db2lin (estNf2 gmin gmax a b) / db2lin (gmax - 5) = db2lin a := by ring
+  rw [this, lin2db_db2lin]
+
+/-- **NF = nf_max at minimum gain** for the unclipped solution -/
+theorem nf_at_gmin (gmin gmax a b : ℝ) (hg : gmin < gmax) (hab : a < b)
+    (hcoil : 0 < db2lin a - db2lin (estNf2 gmin gmax a b) / db2lin (gmax - 5)) :
+    nfVar (estNf1 gmin gmax a b) (estNf2 gmin gmax a b) 5 gmax gmin = b := by
+  have h1 : db2lin (estNf1 gmin gmax a b) = db2lin a - db2lin (estNf2 gmin gmax a b) / db2lin (gmax - 5) := by
+    simp only [estNf1, Nat.cast_ofNat]; exact db2lin_lin2db _ hcoil
+  have h2 := estNf2_lin gmin gmax a b hg hab
+  have hd := den_neg gmin gmax hg
+  have hu := db2lin_pos (gmax - 5)
+  have hv := db2lin_pos (gmin - (gmax - gmin) - 5)
+  simp only [nfVar, dgOf, smax_eq_max, zero, Nat.cast_zero]
+  rw [max_eq_left (by linarith), show gmin - 5 - (gmax - gmin) = gmin - (gmax - gmin) - 5 by ring, h1, h2]
+  have key : db2lin a - (db2lin a - db2lin b) / (1 / db2lin (gmax - 5) - 1 / db2lin (gmin - (gmax - gmin) - 5))
+        / db2lin (gmax - 5)
+      + (db2lin a - db2lin b) / (1 / db2lin (gmax - 5) - 1 / db2lin (gmin - (gmax - gmin) - 5))
+        / db2lin (gmin - (gmax - gmin) - 5) = db2lin b := by
+    generalize db2lin (gmax - 5) = u at hd hu ⊢
+    generalize db2lin (gmin - (gmax - gmin) - 5) = v at hd hv ⊢
+    generalize db2lin a = A
+    generalize db2lin b = B
+    have hd' : 1 / u - 1 / v ≠ 0 := ne_of_lt hd
+    have hN : (A - B) / (1 / u - 1 / v) * (1 / u - 1 / v) = A - B := div_mul_cancel₀ _ hd'
+    have : (A - B) / (1 / u - 1 / v) / u - (A - B) / (1 / u - 1 / v) / v
+        = (A - B) / (1 / u - 1 / v) * (1 / u - 1 / v) := by ring
+    linarith
+  rw [key, lin2db_db2lin]
+
+/-- in its un-clipped branch `estimate_nf_model` returns exactly that solution with `delta_p = 5` -/
+theorem estimate_unclipped (gmin gmax a b n1 n2 dp : ℝ)
+    (h : estimateNfModel gmin gmax a b = .ok (n1, n2, dp)) (hr : (estCore gmin gmax a b).inRange = true) :
+    n1 = estNf1 gmin gmax a b ∧ n2 = estNf2 gmin gmax a b ∧ dp = 5 := by
+  simp only [estimateNfModel] at h
+  split at h; · cases h
+  split at h; · cases h
+  split at h; · cases h
+  split at h; · cases h
+  split at h; · cases h
+  split at h; · cases h
+  split at h; · cases h
+  simp only [Except.ok.injEq, Prod.mk.injEq] at h
+  obtain ⟨e1, e2, e3⟩ := h
+  simp only [estCore] at hr e1 e2 e3
+  simp only [hr, if_true] at e2 e3
+  exact ⟨e1.symm, e2.symm, by rw [← e3]; norm_num⟩
+
+/-- whichever branch is taken, an accepted model reproduces the datasheet values at both ends of the gain
+range within the acceptance tolerance of `math.isclose(…, abs_tol=0.01)` -/
+theorem estimate_accepts_close (gmin gmax a b n1 n2 dp : ℝ) (hg : gmin ≤ gmax)
+    (h : estimateNfModel gmin gmax a b = .ok (n1, n2, dp)) :
+    |a - nfVar n1 n2 dp gmax gmax| ≤ max (1 / 1000000000 * max |a| |nfVar n1 n2 dp gmax gmax|) (1 / 100) ∧
+    |b - nfVar n1 n2 dp gmax gmin| ≤ max (1 / 1000000000 * max |b| |nfVar n1 n2 dp gmax gmin|) (1 / 100) := by
+  simp only [estimateNfModel] at h
+  split at h; · cases h
+  split at h; · cases h
+  split at h; · cases h
+  split at h; · cases h
+  split at h; · cases h
+  split at h; · cases h
+  rename_i _ _ _ _ _ hmin
+  split at h; · cases h
+  rename_i hmax
+  simp only [Except.ok.injEq, Prod.mk.injEq] at h
+  obtain ⟨e1, e2, e3⟩ := h
+  subst e1 e2 e3
+  -- the gain points of `nfVar` are the `g1a` values of the acceptance test
+  have hA : gmax - (estCore gmin gmax a b).dp = (estCore gmin gmax a b).g1aMax := by
+    simp only [estCore]; split <;> ring
+  have hB : gmin - (estCore gmin gmax a b).dp - (gmax - gmin) = (estCore gmin gmax a b).g1aMin := by
+    simp only [estCore]; ring
+  have e1 : nfVar (estCore gmin gmax a b).nf1 (estCore gmin gmax a b).nf2 (estCore gmin gmax a b).dp gmax gmax
+      = (estCore gmin gmax a b).calcMin := by
+    simp only [nfVar, dgOf, smax_eq_max, zero, Nat.cast_zero, sub_self, max_self, sub_zero]
+    rw [hA]; simp only [estCore]
+  have e2 : nfVar (estCore gmin gmax a b).nf1 (estCore gmin gmax a b).nf2 (estCore gmin gmax a b).dp gmax gmin
+      = (estCore gmin gmax a b).calcMax := by
+    simp only [nfVar, dgOf, smax_eq_max, zero, Nat.cast_zero]
+    rw [max_eq_left (by linarith), hB]; simp only [estCore]
+  rw [e1, e2]
+  simp only [Bool.not_eq_false, Bool.not_eq_eq_eq_not, Bool.not_true] at hmin hmax
+  constructor
+  · have := hmin
+    simp only [isclose01, smax_eq_max, cNano, c001, transc_abs, Nat.cast_one, Nat.cast_ofNat, decide_eq_true_eq] at this
+    exact this
+  · have := hmax
+    simp only [isclose01, smax_eq_max, cNano, c001, transc_abs, Nat.cast_one, Nat.cast_ofNat, decide_eq_true_eq] at this
+    exact this
+
+/-- **NF is non-increasing with gain** (any two-coil model; all of `[gmin, ∞)` since there is no padding there) -/
+theorem nf_antitone_in_gain (nf1 nf2 dp gmax g g' : ℝ) (h : g ≤ g') :
+    nfVar nf1 nf2 dp gmax g' ≤ nfVar nf1 nf2 dp gmax g := by
+  simp only [nfVar, dgOf, smax_eq_max, zero, Nat.cast_zero]
+  have hmono : g - dp - max (gmax - g) 0 ≤ g' - dp - max (gmax - g') 0 := by
+    have : max (gmax - g') 0 ≤ max (gmax - g) 0 := max_le_max (by linarith) (le_refl _)
+    linarith
+  have h1 := db2lin_pos nf1
+  have h2 := db2lin_pos nf2
+  have ha := db2lin_pos (g - dp - max (gmax - g) 0)
+  have hb := db2lin_pos (g' - dp - max (gmax - g') 0)
+  have hle : db2lin (g - dp - max (gmax - g) 0) ≤ db2lin (g' - dp - max (gmax - g') 0) := (db2lin_le_iff _ _).2 hmono
+  rw [lin2db_le_iff _ _ (by positivity) (by positivity)]
+  have : db2lin nf2 / db2lin (g' - dp - max (gmax - g') 0) ≤ db2lin nf2 / db2lin (g - dp - max (gmax - g) 0) :=
+    div_le_div_of_nonneg_left (le_of_lt h2) ha hle
+  linarith
+
+/-- **below minimum gain NF grows dB for dB** (every NF model: the missing gain is input padding) -/
+theorem nf_pad_db_for_db (s : Stage ℝ) (ld : Load ℝ) (g : ℝ) (h : g ≤ s.gainMin) :
+    stageNf s ld g = ((nfCore s ld s.gainMin).map (fun x => x + (s.gainMin - g)), s.gainMin - g) := by
+  simp only [stageNf, padOf, smax_eq_max, zero, Nat.cast_zero]
+  rw [max_eq_left (by linarith), show g + (s.gainMin - g) = s.gainMin by ring]
+
+/-- at or above minimum gain nothing is padded -/
+theorem nf_no_pad (s : Stage ℝ) (ld : Load ℝ) (g : ℝ) (h : s.gainMin ≤ g) :
+    stageNf s ld g = (nfCore s ld g, 0) := by
+  simp only [stageNf, padOf, smax_eq_max, zero, Nat.cast_zero]
+  rw [max_eq_right (by linarith)]
+  simp
+
+/-- fixed-gain model: NF = nf0 (+ padding below minimum gain) -/
+theorem nf_fixed_gain (nf0 gmin gmax g : ℝ) (ld : Load ℝ) :
+    stageNf { model := .fixedGain nf0, gainMin := gmin, gainFlatmax := gmax } ld g
+      = (some (nf0 + max (gmin - g) 0), max (gmin - g) 0) := by
+  simp [stageNf, nfCore, padOf, smax_eq_max, zero]
+
+/-- advanced (polynomial) model at or above maximum flat gain: the constant coefficient -/
+theorem nf_advanced_at_gmax (coef : List ℝ) (c gmin gmax g : ℝ) (ld : Load ℝ) (hm : gmin ≤ g) (h : gmax ≤ g) :
+    stageNf { model := .advanced (coef ++ [c]), gainMin := gmin, gainFlatmax := gmax } ld g = (some c, 0) := by
+  rw [nf_no_pad _ _ _ hm]
+  simp only [nfCore, dgOf, smax_eq_max, zero, Nat.cast_zero]
+  rw [max_eq_right (by linarith)]
+  simp [polyval, List.foldl_append, zero]
+
+/-- dual stage: Friis' formula `F = F₁ + F₂ / G₁` -/
+theorem dual_stage_friis (n1 n2 g1 : ℝ) :
+    db2linE (dualNf (some n1) (some n2) g1) = db2lin n1 + db2lin n2 / db2lin g1 := by
+  simp only [dualNf, db2linE, Option.map]
+  rw [db2lin_lin2db _ (by have := db2lin_pos n1; have := db2lin_pos (n2 - g1); positivity), db2lin_sub]
+
+/-! ### gain profile -/
+
+/-- **flat case**: no ripple and no tilt scaling ⇒ every channel gets exactly the effective gain -/
+theorem flat_profile_exact (g : List ℝ) (c eff : ℝ) (hne : g ≠ []) (h : ∀ x ∈ g, x = c) :
+    ∀ y ∈ flatProfile g eff, y = eff := by
+  intro y hy
+  simp only [flatProfile, List.mem_map] at hy
+  obtain ⟨x, hx, rfl⟩ := hy
+  have hm : mean (g.map db2lin) = db2lin c := by
+    apply mean_const _ _ (by simpa using hne)
+    intro z hz
+    simp only [List.mem_map] at hz
+    obtain ⟨w, hw, rfl⟩ := hz
+    rw [h w hw]
+  simp only [voaOf, hm, lin2db_db2lin, h x hx]; ring
+
+/-- a one-channel spectrum gets the effective gain -/
+theorem single_channel_profile (freqs dgt ripple pin : List ℝ) (eff gfm tilt fmin fmax pinDb : ℝ)
+    (h : dgt.length = 1) :
+    (gainProfile freqs dgt ripple pin eff gfm tilt fmin fmax pinDb).1 = [eff] := by
+  simp [gainProfile, h]
+
+/-- the whole `_gain_profile` in the flat configuration (tilt target 0, zero ripple): exact -/
+theorem gain_profile_flat (freqs dgt ripple pin : List ℝ) (eff gfm fmin fmax pinDb : ℝ)
+    (hlen : dgt.length ≠ 1) (hr : ∀ r ∈ ripple, r = 0) :
+    ∀ y ∈ (gainProfile freqs dgt ripple pin eff gfm 0 fmin fmax pinDb).1, y = eff := by
+  have hg1 : ∀ d, ∀ x ∈ g1st ripple dgt gfm d, d = 0 → x = gfm := by
+    intro d x hx hd
+    simp only [g1st, List.mem_map] at hx
+    obtain ⟨p, hp, rfl⟩ := hx
+    have := hr p.1 (List.of_mem_zip hp).1
+    rw [this, hd]; ring
+  have hd0 : (if fitSlope freqs dgt < (zero : ℝ) ∨ (zero : ℝ) < fitSlope freqs dgt
+      then -(0:ℝ) / (fmax - fmin) / fitSlope freqs dgt else zero) = 0 := by
+    split <;> simp [zero]
+  intro y hy
+  simp only [gainProfile, if_neg hlen] at hy
+  rw [hd0] at hy
+  set g1 := g1st ripple dgt gfm 0 with hg1def
+  have hc : ∀ x ∈ g1, x = gfm := fun x hx => hg1 0 x hx rfl
+  by_cases hne : g1 = []
+  · simp [hne, maxL, minL, zero, c005] at hy
+    norm_num at hy
+  · have hdx : maxL g1 - minL g1 = 0 := by rw [maxL_const g1 gfm hne hc, minL_const g1 gfm hne hc]; ring
+    rw [hdx] at hy
+    have h005 : |(0:ℝ)| ≤ c005 := by simp [c005]; norm_num
+    simp only [transc_abs, h005, if_true] at hy
+    exact flat_profile_exact g1 gfm eff hne hc y (by simpa [flatProfile] using hy)
+
+private theorem shifted_zero (g dgt : List ℝ) (v : ℝ) (h : g.length ≤ dgt.length) :
+    shifted g dgt v 0 = g.map (fun x => x - v) := by
+  induction g generalizing dgt with
+  | nil => simp [shifted]
+  | cons x xs ih =>
+    cases dgt with
+    | nil => simp at h
+    | cons d ds =>
+      have := ih ds (by simpa using h)
+      simp only [shifted] at this
+      simp only [shifted, List.zip_cons_cons, List.map_cons, this]
+      congr 1; ring
+
+/-- `gain_profile_normalised_partial` — what is proved under tilt/ripple: the returned profile is the first
+estimate shifted by the VOA plus ONE scalar multiple of the dynamic gain tilt (so its shape is exactly
+`ripple + x'·dgt`).  Full statement (not provable: the code does one secant step, which only approximates it):
+`watt2dbm (Σ pinᵢ·db2lin gᵢ) − pinDb = eff` for the returned `g`. -/
+theorem gain_profile_normalised_partial (freqs dgt ripple pin : List ℝ) (eff gfm tilt fmin fmax pinDb : ℝ)
+    (hlen : dgt.length ≠ 1) :
+    ∃ d x : ℝ, (gainProfile freqs dgt ripple pin eff gfm tilt fmin fmax pinDb).1 =
+      shifted (g1st ripple dgt gfm d) dgt (voaOf (g1st ripple dgt gfm d) eff) x := by
+  simp only [gainProfile, if_neg hlen]
+  generalize (if fitSlope freqs dgt < zero ∨ zero < fitSlope freqs dgt
+    then -tilt / (fmax - fmin) / fitSlope freqs dgt else zero) = d
+  refine ⟨d, ?_⟩
+  by_cases hb : Transc.abs (maxL (g1st ripple dgt gfm d) - minL (g1st ripple dgt gfm d)) ≤ c005
+  · simp only [hb, if_true]
+    refine ⟨0, ?_⟩
+    rw [shifted_zero]
+    simp only [g1st, List.length_map, List.length_zip]
+    exact Nat.min_le_right _ _
+  · simp only [hb, if_false]
+    exact ⟨_, rfl⟩
+
+/-! ### band filter -/
+
+/-- **out-of-band channels are not amplified**: every channel that is kept lies inside the amplifier band -/
+theorem out_of_band_dropped (fmin fmax : Nat) (cs : List (Chan ℝ)) (c : Chan ℝ) (h : c ∈ demux fmin fmax cs) :
+    2 * fmin + c.slot ≤ 2 * c.f ∧ 2 * c.f + c.slot ≤ 2 * fmax := by
+  simp only [demux, List.mem_filter, inBand, Bool.and_eq_true, decide_eq_true_eq] at h
+  exact h.2
+
+/-- every in-band channel is kept -/
+theorem in_band_kept (fmin fmax : Nat) (cs : List (Chan ℝ)) (c : Chan ℝ) (hc : c ∈ cs)
+    (h1 : 2 * fmin + c.slot ≤ 2 * c.f) (h2 : 2 * c.f + c.slot ≤ 2 * fmax) : c ∈ demux fmin fmax cs := by
+  simp only [demux, List.mem_filter, inBand, Bool.and_eq_true, decide_eq_true_eq]
+  exact ⟨hc, h1, h2⟩
+
+/-- the kept channels are a sub-list of the input (order preserved, nothing invented or duplicated) -/
+theorem demux_sublist (fmin fmax : Nat) (cs : List (Chan ℝ)) : (demux fmin fmax cs).Sublist cs :=
+  List.filter_sublist
+
+/-- the amplifier rejects the spectrum (ValueError) exactly when no channel lies in its band; otherwise the
+frequencies it returns are those of the in-band channels and the clamp holds for the gain it reports -/
+theorem call_none_iff_no_channel_in_band (a : Amp ℝ) (o : Oper ℝ) (cs : List (Chan ℝ)) :
+    call a o cs = none ↔ ∀ c ∈ cs, inBand a.fMin a.fMax c.f c.slot = false := by
+  simp only [call]
+  constructor
+  · intro h
+    split at h
+    · rename_i hk
+      intro c hc
+      by_contra hb
+      have : c ∈ demux a.fMin a.fMax cs := by
+        simp only [demux, List.mem_filter]; exact ⟨hc, by simpa using hb⟩
+      rw [hk] at this; simp at this
+    · simp at h
+  · intro h
+    have : demux a.fMin a.fMax cs = [] := by
+      simp only [demux, List.filter_eq_nil_iff]
+      intro c hc; simp [h c hc]
+    rw [this]
+
+theorem call_spec (a : Amp ℝ) (o : Oper ℝ) (cs : List (Chan ℝ)) (r : Out ℝ) (h : call a o cs = some r) :
+    r.kept = (demux a.fMin a.fMax cs).map (fun c => c.f) ∧
+    r.pinDb = watt2dbm (sumL ((demux a.fMin a.fMax cs).map (fun c => attenuate o.inVoa c.p))) ∧
+    r.effGain = effGain o.gain a.pMax r.pinDb ∧ r.effGain ≤ o.gain ∧ r.pinDb + r.effGain ≤ a.pMax := by
+  simp only [call] at h
+  split at h
+  · cases h
+  · rename_i c0 rest hk
+    simp only [Option.some.injEq] at h
+    subst h
+    simp only [hk]
+    exact ⟨trivial, trivial, trivial, effGain_le_set _ _ _, effGain_clamp _ _ _⟩
+
+/-- NF of a min/max-NF amplifier is non-increasing with gain on `[gain_min, ∞)`, in the form `_nf` returns it -/
+theorem nf_stage_antitone (nf1 nf2 dp gmin gmax g g' : ℝ) (ld : Load ℝ) (h0 : gmin ≤ g) (h : g ≤ g') :
+    ∃ x y, stageNf { model := .variableGain nf1 nf2 dp, gainMin := gmin, gainFlatmax := gmax } ld g = (some x, 0) ∧
+      stageNf { model := .variableGain nf1 nf2 dp, gainMin := gmin, gainFlatmax := gmax } ld g' = (some y, 0) ∧ y ≤ x := by
+  refine ⟨nfVar nf1 nf2 dp gmax g, nfVar nf1 nf2 dp gmax g', ?_, ?_, nf_antitone_in_gain nf1 nf2 dp gmax g g' h⟩
+  · rw [nf_no_pad _ _ _ h0]; simp [nfCore]
+  · rw [nf_no_pad _ _ _ (le_trans h0 h)]; simp [nfCore]
+
+private theorem interpGo_const (c x : ℝ) (p : ℝ × ℝ) (l : List (ℝ × ℝ)) (hp : p.2 = c) (hl : ∀ q ∈ l, q.2 = c) :
+    interpGo x p l = c := by
+  induction l generalizing p with
+  | nil => obtain ⟨a, b⟩ := p; simpa [interpGo] using hp
+  | cons q qs ih =>
+    obtain ⟨x0, f0⟩ := p
+    obtain ⟨x1, f1⟩ := q
+    have h1 : f1 = c := hl (x1, f1) (by simp)
+    have h0 : f0 = c := hp
+    simp only [interpGo]
+    split
+    · rw [h0, h1]; simp
+    · exact ih (x1, f1) h1 (fun q hq => hl q (by simp [hq]))
+
+/-- a constant ripple vector interpolates to that constant at every frequency (e.g. the default `nf_ripple = [0.0]`
+and `gain_ripple = [0.0]`: every channel gets exactly the average NF / the flat gain) -/
+theorem interp_const (xp fp : List ℝ) (c x : ℝ) (hne : xp.zip fp ≠ []) (h : ∀ f ∈ fp, f = c) :
+    interp xp fp x = c := by
+  simp only [interp]
+  have hz : ∀ q ∈ xp.zip fp, q.2 = c := fun q hq => h q.2 (List.of_mem_zip hq).2
+  cases hzz : xp.zip fp with
+  | nil => exact absurd hzz hne
+  | cons p rest =>
+    obtain ⟨x0, f0⟩ := p
+    rw [hzz] at hz
+    have h0 : f0 = c := hz (x0, f0) (by simp)
+    simp only
+    split
+    · exact h0
+    · exact interpGo_const c x (x0, f0) rest h0 (fun q hq => hz q (by simp [hq]))
+
+/-! ### persistence of the clamp, dual forms, multiband node -/
+
+/-- an amplifier that is never saturated keeps its set gain over any number of calls -/
+theorem callSeq_unsaturated (s pm : ℝ) (pins : List ℝ) (h : ∀ p ∈ pins, p + s ≤ pm) : callSeq s pm pins = s := by
+  induction pins with
+  | nil => rfl
+  | cons p ps ih =>
+    simp only [callSeq]
+    rw [(effGain_eq_set_iff s pm p).2 (h p (by simp))]
+    exact ih (fun q hq => h q (by simp [hq]))
+
+/-- the `effective_gain` attribute only ever decreases: a reduction made by one call is still in force for all
+later calls of the same object (the code's behaviour; see the report — outside C04's quantifier) -/
+theorem callSeq_persists (s pm p : ℝ) (ps : List ℝ) : callSeq s pm (p :: ps) ≤ effGain s pm p :=
+  callSeq_le_set (effGain s pm p) pm ps
+
+/-- min/max-NF amplifier built from the unclipped solution, stage form: `_nf` returns `(nf_min, 0)` at
+maximum flat gain and `(nf_max, 0)` at minimum gain -/
+theorem nf_stage_at_gmax_gmin (gmin gmax a b : ℝ) (ld : Load ℝ) (hg : gmin < gmax) (hab : a < b)
+    (hcoil : 0 < db2lin a - db2lin (estNf2 gmin gmax a b) / db2lin (gmax - 5)) :
+    let s : Stage ℝ := { model := .variableGain (estNf1 gmin gmax a b) (estNf2 gmin gmax a b) 5,
+                         gainMin := gmin, gainFlatmax := gmax }
+    stageNf s ld gmax = (some a, 0) ∧ stageNf s ld gmin = (some b, 0) := by
+  intro s
+  constructor
+  · rw [nf_no_pad s ld gmax (le_of_lt hg)]
+    simp only [nfCore, s]
+    rw [nf_at_gmax gmin gmax a b hcoil]
+  · rw [nf_no_pad s ld gmin (le_refl _)]
+    simp only [nfCore, s]
+    rw [nf_at_gmin gmin gmax a b hg hab hcoil]
+
+/-- OpenROADM ILA: `NF = pin − OSNR(pin) + 58` with the polynomial OSNR mask evaluated at the input power per
+50 GHz channel -/
+theorem nf_openroadm (coef : List ℝ) (gmin gmax g : ℝ) (ld : Load ℝ) (h : gmin ≤ g) :
+    stageNf { model := .openroadm coef, gainMin := gmin, gainFlatmax := gmax } ld g
+      = (some (pinCh50 ld - polyval coef (pinCh50 ld) + 58), 0) := by
+  rw [nf_no_pad _ _ _ h]; simp [nfCore]
+
+/-- OpenROADM preamp: OSNR mask `min((4·pin + 275)/7, 33)` -/
+theorem nf_openroadm_preamp (gmin gmax g : ℝ) (ld : Load ℝ) (h : gmin ≤ g) :
+    stageNf { model := .openroadmPreamp, gainMin := gmin, gainFlatmax := gmax } ld g
+      = (some (pinCh50 ld - min ((4 * pinCh50 ld + 275) / 7) 33 + 58), 0) := by
+  rw [nf_no_pad _ _ _ h]; simp [nfCore, smin_eq_min]
+
+/-- a `Multiband_amplifier` rejects the spectrum exactly when none of its amplifiers has a channel in its band -/
+theorem multiCall_none_iff (amps : List (Amp ℝ × Oper ℝ)) (cs : List (Chan ℝ)) :
+    multiCall amps cs = none ↔ ∀ ao ∈ amps, call ao.1 ao.2 cs = none := by
+  simp only [multiCall]
+  constructor
+  · intro h
+    split at h
+    · rename_i he
+      rw [List.isEmpty_iff, List.filterMap_eq_nil_iff] at he
+      exact he
+    · cases h
+  · intro h
+    have : (amps.filterMap (fun ao => call ao.1 ao.2 cs)).isEmpty = true := by
+      rw [List.isEmpty_iff, List.filterMap_eq_nil_iff]; exact h
+    rw [if_pos this]
+
+/-- every partial output of a `Multiband_amplifier` is the output of one of its amplifiers on the whole input
+(so `call_spec`, the clamp and the band filter hold per band, each amplifier seeing the power of its own band) -/
+theorem multiCall_per_band (amps : List (Amp ℝ × Oper ℝ)) (cs : List (Chan ℝ)) (outs : List (Out ℝ))
+    (h : multiCall amps cs = some outs) :
+    ∀ r ∈ outs, ∃ ao ∈ amps, call ao.1 ao.2 cs = some r ∧ r.effGain ≤ ao.2.gain ∧ r.pinDb + r.effGain ≤ ao.1.pMax := by
+  simp only [multiCall] at h
+  split at h
+  · cases h
+  · simp only [Option.some.injEq] at h
+    subst h
+    intro r hr
+    obtain ⟨ao, hao, hc⟩ := List.mem_filterMap.1 hr
+    obtain ⟨_, _, _, h4, h5⟩ := call_spec ao.1 ao.2 cs r hc
+    exact ⟨ao, hao, hc, h4, h5⟩
+
+/-! ### non-vacuity -/
+example : effGain (20:ℝ) 23 10 = 13 := by rw [effGain, smin_eq_min]; norm_num
+example : effGain (20:ℝ) 23 (-10) = 20 := by rw [effGain, smin_eq_min]; norm_num
+example : callSeq (20:ℝ) 23 [10, -10] = 13 := by simp only [callSeq, effGain, smin_eq_min]; norm_num
+/-- the stock `std_medium_gain` datasheet (15–26 dB, NF 6–10 dB) satisfies every hypothesis of `nf_at_gmax`/`nf_at_gmin` -/
+example : nfVar (estNf1 15 26 6 10) (estNf2 15 26 6 10) 5 26 26 = (6:ℝ) ∧
+    nfVar (estNf1 15 26 6 10) (estNf2 15 26 6 10) 5 26 15 = (10:ℝ) := by
+  have hc := coil_pos_of_spread 15 26 6 10 (by norm_num) (by norm_num) (by norm_num)
+  exact ⟨nf_at_gmax 15 26 6 10 hc, nf_at_gmin 15 26 6 10 (by norm_num) (by norm_num) hc⟩
+example : inBand 191275000000000 196125000000000 193000000000000 50000000000 = true := by decide
+example : inBand 191275000000000 196125000000000 191290000000000 50000000000 = false := by decide
+
+end Gnpy.Edfa
